@@ -902,6 +902,58 @@ def ob_he_default_getter():
     return Verdict(DISCHARGED, backend="native")
 
 
+def ob_he_system_stale(what):
+    """a hyperelastic simulation whose assembled system was read, then (a) the time scheme is switched (the local system holds the inertia terms of the scheme) or
+    (b) the direction of the active stress is registered anew: the public getter hands out the system a simulation taken through the same steps WITHOUT the
+    intermediate read hands out."""
+    import contextlib, io
+    from EasyFEA import Models, Simulations
+    from EasyFEA.FEM._linalg import FeArray
+    coords, connect = patches.star_patch("QUAD4")
+
+    def run(read_first):
+        mesh = patches.real_mesh("QUAD4", coords, connect)
+        mat = Models.HyperElastic.NeoHookean(2, K=10.0, thickness=1.0)
+        sm = Simulations.HyperElastic(mesh, mat, verbosity=False)
+        sm.rho = 1.3
+        g = mesh.groupElem
+        Ne, nPg = np.asarray(g.Get_weightedJacobian_e_pg("rigi")).shape[:2]
+        if what == "active":
+            T = FeArray.zeros(Ne, nPg, 3)
+            T[..., 0] = 1.0
+            mat.Set_active_stress_vec(T)
+            mat.active_stress = 0.05
+        c_ = np.asarray(mesh.coord)
+        sm.add_dirichlet(np.where(np.isclose(c_[:, 0], c_[:, 0].min()))[0], [0, 0], ["x", "y"])
+        sm.add_dirichlet(np.where(np.isclose(c_[:, 0], c_[:, 0].max()))[0], [0.02], ["x"])
+        sm.Solve()
+        if read_first:
+            sm.Get_K_C_M_F()
+        if what == "scheme":
+            sm.Solver_Set_Hyperbolic_Algorithm(0.1)
+        elif what == "scheme.back":
+            sm.Solver_Set_Hyperbolic_Algorithm(0.1)
+            if read_first:
+                sm.Get_K_C_M_F()
+            sm.Solver_Set_Elliptic_Algorithm()
+        else:
+            T = FeArray.zeros(Ne, nPg, 3)
+            T[..., 1] = 1.0
+            mat.Set_active_stress_vec(T)
+        return [np.asarray(X.toarray() if hasattr(X, "toarray") else X, dtype=float) for X in sm.Get_K_C_M_F()]
+    with contextlib.redirect_stdout(io.StringIO()), np.errstate(all="ignore"):
+        A, B = run(True), run(False)
+    for nm, a, b in zip("KCMF", A, B):
+        sc = max(float(np.abs(b).max()), 1e-300)
+        e = float(np.abs(a - b).max() / sc) if a.shape == b.shape else float("inf")
+        if e > 1e-10:
+            step = {"scheme": "Solver_Set_Hyperbolic_Algorithm(0.1)", "scheme.back": "Solver_Set_Hyperbolic_Algorithm(0.1); Get_K_C_M_F(); Solver_Set_Elliptic_Algorithm()", "active": "Set_active_stress_vec(other direction)"}[what]
+            raise Refuted(f"HyperElastic: Solve(); Get_K_C_M_F(); {step}; Get_K_C_M_F() returns a {nm} differing by {e:.3e} (relative) from the one obtained without the first read: the system "
+                          f"assembled before the change is handed out", cex=dict(history=["Solve", "Get_K_C_M_F", step, "Get_K_C_M_F"], which=nm), signature=f"history:hyper:stale:{what}:{nm}",
+                          replay=dict(confirmed=True, rel_diff=e))
+    return Verdict(DISCHARGED, backend="native", sub=4)
+
+
 def ob_he_mass(opname):
     def thick(m, sm):
         sm.material.thickness = 5.0
@@ -1531,6 +1583,10 @@ def build(tier, seed):
     obs.append(Ob("C14.history.behavior.elastic.Set_C", ob_behavior_elastic_change, ("auto", True), "X", ("EasyFEA/Models/Elastic/_laws.py::Anisotropic.Set_C", "EasyFEA/Models/InElastic/_behavior.py::Behavior._Update"),
                   bound="one von Mises / linear hardening behaviour on an Anisotropic elastic law, 6 strain states, the matrix replaced three times through Set_C", timeout=300,
                   clause="after Set_C on the elastic law of an inelastic behaviour, Integrate returns what a behaviour built on the new matrix returns"))
+    for what in ("scheme", "scheme.back", "active"):
+        obs.append(Ob(f"C14.history.hyperelastic.stale.{what}", ob_he_system_stale, (what,), "X", ("EasyFEA/Simulations/_simu.py::_Simu.Solver_Set_Hyperbolic_Algorithm", "EasyFEA/Simulations/_simu.py::_Simu.Solver_Set_Elliptic_Algorithm",
+                      "EasyFEA/Models/HyperElastic/_laws.py::_HyperElastic.Set_active_stress_vec"), bound="one solved static step on a 4-element patch", timeout=300,
+                      clause="after the time scheme of a non-linear simulation is switched / the active-stress direction is registered anew, the public getter returns the system of the new configuration"))
     for solver in ("auto", "newton"):
         obs.append(Ob(f"C14.history.behavior.elastic.{solver}", ob_behavior_elastic_change, (solver,), "X", ("EasyFEA/Models/InElastic/_behavior.py::Behavior.__init__", "EasyFEA/Models/InElastic/_behavior.py::Behavior.Integrate"),
                       bound="one von Mises / linear hardening behaviour, 6 strain states (elastic and plastic), parameters E and v of its elastic law re-assigned", timeout=300,
